@@ -5,6 +5,10 @@ n in 0..N(kind, tier), every law of the statement and every parameter tuple of t
 (positions a, b in [0,n]; offsets d with a+d in [0,n]) is executed on the REAL iterator and judged against index
 arithmetic on the underlying container (laws.hpp / harness.cpp).  One harness process per kind; the harness source is
 compiled once per group of kinds so that the groups build in parallel.
+
+Magnitude part (huge.hpp / huge.cpp, groups 8..10): the same laws over ranges whose positions and offsets reach 2^31, 2^32, 2^33,
+2^53, 2^62 and PTRDIFF_MAX - implicit sequences and zero-page mappings, so they cost no memory -, exhaustive over a boundary
+alphabet of positions (every position, every ordered pair of positions, every boundary offset applied to every position).
 """
 import os
 import re
@@ -13,6 +17,7 @@ import vlib
 LEVEL = "exploration"
 HERE = os.path.dirname(os.path.abspath(__file__))
 SRC = os.path.join(HERE, "harness.cpp")
+HUGE_SRC = os.path.join(HERE, "huge.cpp")
 
 # ---- committed instantiation manifest --------------------------------------------------------------------------
 # kind -> (group, random_access, has operator<, uses xrandom_access_iterator_ext, size class)
@@ -45,13 +50,45 @@ for k in ("key_iterator.map", "key_iterator.const_map", "value_iterator.map", "v
 for k in ("toy_ref_base_ext", "toy_val_base_ext"):
     MANIFEST[k] = (6, 1, 1, 1, "plain")
 GROUPS = sorted(set(v[0] for v in MANIFEST.values()))
+
+# ---- the magnitude part: kinds of huge.cpp -> (group, random_access, has operator<, uses the ext base) -------------------
+HUGE_MANIFEST = {
+    "huge.iota_val_base_ext": (8, 1, 1, 1),
+    "huge.iota_val_longlong_base_ext": (8, 1, 1, 1),
+    "huge.iota_val_bidirectional_base": (8, 0, 0, 0),
+    "huge.region_ref_base_ext": (8, 1, 1, 1),
+    "huge.stepping.iota.step3": (8, 1, 1, 0),
+    "huge.stepping.iota.step2147483649": (8, 1, 1, 0),
+    "huge.stepping.pointer.step1": (8, 1, 1, 0),
+    "huge.stepping.pointer.step3": (8, 1, 1, 0),
+    "huge.bitset_view_u64.iterator": (9, 1, 1, 0),
+    "huge.bitset_view_u64.const_iterator": (9, 1, 1, 0),
+    "huge.bitset_view_u64.reverse_iterator": (9, 1, 1, 0),
+    "huge.bitset_view_u64.const_reverse_iterator": (9, 1, 1, 0),
+    "huge.bitset_view_u8.iterator": (9, 1, 1, 0),
+    "huge.bitset_view_u32.const_iterator": (9, 1, 1, 0),
+    "huge.stepping.bitset_view_u64_const_iterator.step1": (9, 1, 1, 0),
+    "huge.stepping.bitset_view_u64_const_iterator.step3": (9, 1, 1, 0),
+    "huge.stepping.bitset_view_u64_const_iterator.step64": (9, 1, 1, 0),
+    "huge.optional_over_region_and_bitset_view.iterator": (10, 1, 1, 0),
+    "huge.optional_over_region_and_bitset_view.reverse_iterator": (10, 1, 1, 0),
+    "huge.complex_over_regions.iterator": (10, 1, 0, 0),
+    "huge.complex_over_regions.reverse_iterator": (10, 1, 0, 0),
+}
+HUGE_GROUPS = sorted(set(v[0] for v in HUGE_MANIFEST.values()))
 GROUP_DOC = {1: "xbitset_iterator over xdynamic_bitset<uint8_t> (+ std::reverse_iterator of it = rbegin()/rend())",
              2: "xoptional_iterator over xoptional_vector<int> (4 iterator types)",
              3: "xcomplex_iterator over xcomplex_vector<double> (4 iterator types)",
              4: "xstepping_iterator over vector<int>::iterator / const_iterator / int* with steps 1..4 (int* also 7), deque<int>::iterator with steps 1 and 3",
              5: "xbitset_iterator over uint16/32/64 blocks and xdynamic_bitset_view",
              7: "xoptional_iterator over xoptional_vector<int> with uint8_t flag blocks (4 iterator types); xcomplex_iterator over xcomplex_vector<float, true>",
-             6: "xkey_iterator / xvalue_iterator over std::map and const std::map; two direct users of xrandom_access_iterator_base + _ext"}
+             6: "xkey_iterator / xvalue_iterator over std::map and const std::map; two direct users of xrandom_access_iterator_base + _ext",
+             8: "magnitude: harness iterators on xbidirectional_iterator_base / xrandom_access_iterator_base + _ext over an implicit sequence of 2^63-1 elements "
+                "(difference_type ptrdiff_t and long long) and over a read-only zero-page array (true references); xstepping_iterator over those and over a raw pointer",
+             9: "magnitude: xbitset_iterator (mutable/const, uint64/uint8/uint32 blocks) of an xdynamic_bitset_view of 2^32+192 bits over a zero-page mapping, "
+                "its std::reverse_iterator (rbegin()/rend()), xstepping_iterator over it with steps 1, 3, 64",
+             10: "magnitude: xoptional_iterator (forward and reverse) built from a true-reference value iterator and a huge bitset-view flag iterator; "
+                 "xcomplex_iterator (forward and reverse) over two zero-page arrays"}
 
 # largest container size per size class: chosen so that block boundaries of the bit storages are crossed
 NMAX = {
@@ -70,7 +107,7 @@ def configs(tier):
 
 
 def build(group, std="c++14", cxx="g++"):
-    return vlib.compile_cxx(SRC, "c12-g%d-%s-%s" % (group, std, cxx.replace("+", "x")), std=std, opt="-O1", san="asan",
+    return vlib.compile_cxx(HUGE_SRC if group in HUGE_GROUPS else SRC, "c12-g%d-%s-%s" % (group, std, cxx.replace("+", "x")), std=std, opt="-O1", san="asan",
                             compiler=cxx, defines=["C12_GROUP=%d" % group])
 
 
@@ -92,7 +129,9 @@ def probe(ctx, binary, group, label):
         m = re.match(r"kind (\S+) random_access=(\d) less=(\d) ext=(\d)$", n)
         if m:
             seen[m.group(1)] = (int(m.group(2)), int(m.group(3)), int(m.group(4)))
-    for k, (g, ra, less, ext, _) in sorted(MANIFEST.items()):
+    manifest = HUGE_MANIFEST if group in HUGE_GROUPS else MANIFEST
+    for k, v in sorted(manifest.items()):
+        g, ra, less, ext = v[:4]
         if g != group:
             continue
         if k not in seen:
@@ -104,7 +143,7 @@ def probe(ctx, binary, group, label):
         if s != (ra, less, ext):
             ctx.note("capability gained since the manifest was committed: %s now has (random_access,less,ext)=%s, explored" % (k, s))
     for k in seen:
-        if k not in MANIFEST:
+        if k not in manifest:
             raise vlib.HarnessError("harness kind %s is not in the manifest" % k)
     return seen
 
@@ -153,8 +192,9 @@ def run_config(ctx, std, cxx, primary):
             return binary
         return f
 
-    binaries = dict(zip(GROUPS, vlib.parallel([group_job(g) for g in GROUPS], workers=len(GROUPS))))
-    skipped = ["group %d" % g for g in GROUPS if binaries[g] is None]
+    all_groups = GROUPS + HUGE_GROUPS
+    binaries = dict(zip(all_groups, vlib.parallel([group_job(g) for g in all_groups], workers=len(all_groups))))
+    skipped = ["group %d" % g for g in all_groups if binaries[g] is None]
 
     # phase 2: one harness process per (kind, size range), most expensive first
     def kind_job(kind, lo, hi):
@@ -169,6 +209,21 @@ def run_config(ctx, std, cxx, primary):
             return ("ok", kind, lo, hi, sub)
         return g
 
+    # the magnitude part: one harness process per huge kind; the additional builds use the quick alphabet
+    huge_tier = ctx.tier if primary else "quick"
+
+    def huge_job(kind):
+        def g():
+            left = ctx.time_left()
+            if left < 40:
+                return ("skipped", kind, None)
+            group = HUGE_MANIFEST[kind][0]
+            sub = vlib.Ctx(ctx.pid, ctx.tier, LEVEL, ctx.seed)
+            sub.run_harness(binaries[group], ["--kind", kind, "--tier", huge_tier, "--deadline", str(int(max(10, left - 30)))],
+                            tag=tag_of(group, std, cxx), timeout=max(60, left + 60))
+            return ("ok", kind, sub)
+        return g
+
     plan = []
     for kind, v in sorted(MANIFEST.items()):
         if binaries[v[0]] is None:
@@ -176,7 +231,22 @@ def run_config(ctx, std, cxx, primary):
         for (lo, hi) in shards(nmax[v[4]]):
             plan.append((-(hi + 1) ** 5 + lo ** 5, kind, lo, hi))
     plan.sort()
-    res = vlib.parallel([kind_job(k, lo, hi) for (_, k, lo, hi) in plan], workers=vlib.NCPU)
+    huge_plan = [k for k, v in sorted(HUGE_MANIFEST.items()) if binaries[v[0]] is not None]
+    # in the thorough tier a huge kind costs as much as a large size range: start them first
+    jobs = [huge_job(k) for k in huge_plan] + [kind_job(k, lo, hi) for (_, k, lo, hi) in plan]
+    every = vlib.parallel(jobs, workers=vlib.NCPU)
+    huge_res, res = every[:len(huge_plan)], every[len(huge_plan):]
+    n_huge = 0
+    huge_kinds = 0
+    for r in huge_res:
+        if r[0] == "skipped":
+            skipped.append("%s (magnitude part)" % r[1])
+            continue
+        merge(ctx, r[2], primary)
+        n_huge += r[2].stats.get("evaluations", 0)
+        huge_kinds += 1
+    if primary:
+        ctx.stat("huge_kinds", huge_kinds)
 
     n_eval = 0
     per_kind = {}
@@ -195,13 +265,17 @@ def run_config(ctx, std, cxx, primary):
         for kind, pk in sorted(per_kind.items()):
             ctx.note("kind %s: sizes 0..%d, %d law instances, %d non-trivial" % (kind, pk[0], pk[1], pk[2]))
         # Ctx keeps 12 samples: spread them over the kinds instead of taking the first twelve
-        every = sorted(s for (st, _, _, _, sub) in res if st == "ok" for s in sub.samples)
-        step = max(1, len(every) // 12)
-        for s in every[::step]:
+        samples = sorted(s for (st, _, _, _, sub) in res if st == "ok" for s in sub.samples)
+        hsamples = sorted(s for r in huge_res if r[0] == "ok" for s in r[2].samples)
+        for s in hsamples[::max(1, len(hsamples) // 4)][:4]:
+            ctx.sample(s)
+        step = max(1, len(samples) // 8)
+        for s in samples[::step]:
             ctx.sample(s)
     if skipped:
         ctx.cap("deadline: build '%s' did not run %s" % (label, ", ".join(skipped)))
-    ctx.note("build %s: %d law instances (sizes: %s)" % (label, n_eval, ", ".join("%s 0..%d" % kv for kv in sorted(nmax.items()))))
+    ctx.note("build %s: %d law instances (sizes: %s) + %d law instances of the magnitude part (%s alphabet)" % (
+        label, n_eval, ", ".join("%s 0..%d" % kv for kv in sorted(nmax.items())), n_huge, huge_tier))
 
 
 def probe_array_forms(ctx):
@@ -241,10 +315,27 @@ def run(ctx):
         "under index-bit patterns written directly into the block storage. evaluations = law instances executed over all builds; distinct_nontrivial = distinct "
         "law instances of the primary build with n > 0 that are not the reflexive (a == b) or zero-offset (d == 0) instance, counted while enumerating"
         % (len(MANIFEST), nm["plain"], nm["u8"], nm["u32"], nm["u64"]))
+    ctx.rule += (
+        ". MAGNITUDE part (huge.hpp/huge.cpp): %d further kinds whose ranges cost no memory - harness iterators deriving from xbidirectional_iterator_base / "
+        "xrandom_access_iterator_base + xrandom_access_iterator_ext over the implicit sequence 0..2^63-2 (difference_type ptrdiff_t and long long) and over a read-only "
+        "zero-page array of 2^33+7 elements (true references); xbitset_iterator mutable/const (uint64, uint8, uint32 blocks) and its std::reverse_iterator over an "
+        "xdynamic_bitset_view of 2^32+192 bits laid over a private zero-page mapping; xstepping_iterator over the bitset iterator (steps 1, 3, 64), over a raw pointer "
+        "(steps 1, 3) and over the implicit sequence (steps 3 and 2^31+1); xoptional_iterator and xcomplex_iterator (forward and std::reverse_iterator sub-iterators) built "
+        "through their public constructors from such sub-iterators%s. Per world of size N the position alphabet is A = {v, N-v : v in V, v <= N} with the boundary values "
+        "%s (stepping worlds add the positions whose underlying index is v); EVERY law except the two full traversals is executed for every a in A (deref, ++it, --it, "
+        "it++, it--) resp. for every pair of P = A x A united with {(a, a+v), (a, a-v) : a in A, v in V, inside [0,N]} (== / !=, b-a, < <= > >=, it+d, d+it, it-(-d), "
+        "+= / -=, it[d] vs *(it+d), size_t overloads incl. (it + size_t(d)) - size_t(d)), d = b-a; the oracle is 64-bit index arithmetic: result == ref(expected) and "
+        "!= ref(q) for every other q in A, elements identified by address / by value (implicit sequence) / for bits by reading with only the expected bit set and with "
+        "all-zero storage. huge_law_instances / huge_positions / huge_pairs / huge_worlds count this part (its instances are also included in evaluations and distinct_nontrivial)"
+        % (len(HUGE_MANIFEST),
+           "; thorough: also sizes 2^31+1, 2^33+8, 2^35+3 (bitset), 2^31+1, 2^35+3 (array), 2^33+7, 2^31+1 (implicit)" if ctx.tier == "thorough" else "",
+           "V = {0, 1, 2^k-1, 2^k, 2^k+1 (k in 6,7,8,15,16,31,32,33,53,62), 2^63-2, 2^63-1}" if ctx.tier == "quick" else
+           "V = {0..3, 2^k-1, 2^k, 2^k+1 (every k in 1..62), 2^k-3..2^k+3 (k in 8,16,31,32,33,53,62), 2^63-4..2^63-1}"))
     if len(configs(ctx.tier)) > 1:
         ctx.rule += ("; additional builds (%s) re-execute the same instances up to N = %d / %d / %d / %d" % (
             ", ".join("%s -std=%s" % (c, s) for (s, c, p) in configs(ctx.tier) if not p),
             NMAX_SECONDARY["plain"], NMAX_SECONDARY["u8"], NMAX_SECONDARY["u32"], NMAX_SECONDARY["u64"]))
+        ctx.rule += " and the magnitude part with the quick alphabet"
     ctx.assumptions += [
         "reference semantics = index arithmetic on the underlying std::vector / std::map / block storage; std:: iterators, std::next and std::reverse_iterator are trusted",
         "bounded: container sizes up to the stated N per kind; element types int / double / bool; map<int,double>; steps 1..4 and 7; larger sizes, other element types, "
@@ -253,7 +344,14 @@ def run(ctx):
         "operator-> , iterator_traits conformance and default-constructed (singular) iterators are not part of the statement and are not judged",
         "laws that need an operator a kind does not provide are skipped by capability probe: xcomplex_iterator has no operator< on the pinned tree, so < <= > >= are not evaluated for it; "
         "begin() of xoptional_array / xcomplex_array is ill-formed on the pinned tree (IT::value_type on a pointer), so only the vector forms are explored",
-        "the size_t overloads of xrandom_access_iterator_ext have no user inside the library; they are exercised through two iterators defined in the harness that derive directly from the two base classes",
+        "the size_t overloads of xrandom_access_iterator_ext have no user inside the library; they are exercised through two iterators defined in the harness that derive directly from the two base classes "
+        "(small scope) and three more with a 64-bit difference_type (magnitude part)",
+        "magnitude part: positions and offsets >= 2^31 are enumerated over a BOUNDARY ALPHABET (windows around powers of two, around N - 2^k and around PTRDIFF_MAX), exhaustively over "
+        "alphabet and alphabet^2, not over every position of the huge range; a defect that needs a large position which is not within +-1 (thorough: +-3 for the main boundaries) of a "
+        "boundary value or of its mirror image N - v is outside the scope; full traversals (2^32 and more steps) are not executed there, ++/--/it++/it-- are enumerated per boundary position",
+        "magnitude part: LP64 target (64-bit ptrdiff_t / size_t); the huge ranges are address space only (mmap MAP_NORESERVE zero pages; a few pages are written for the bit identification); "
+        "an mmap that fails is recorded as a cap, never a silent pass; owning xdynamic_bitset objects of 2^32 bits (512 MiB of touched memory) are not built - their iterator is the same "
+        "xbitset_iterator template as the view's; the huge xoptional_iterator / xcomplex_iterator are built through their public constructors (no xoptional_vector / xcomplex_vector of that size exists)",
     ]
     ctx.note("groups: " + "; ".join("%d=%s" % (g, GROUP_DOC[g]) for g in GROUPS))
 
